@@ -47,7 +47,7 @@ CHECKS = {
          "Generated LSP sets (orders 2..24 even/odd, stages 1..4, alpha, linear/log gain, minimal spacing) compared in the time domain (1e-6 of the peak) and in log-magnitude (0.001 neper within 100 dB of the peak); the same after generated frame histories; generated LSP voice FILES: engine output == Vocoder built from the stage / gain convention / alpha written into the file.",
          "Truncation of the finite measurement window is cancelled by truncating the reference identically.", "4/C13"),
  "C14": ("exploration", "PBT, metamorphic: pulse responses with and without the postfilter vs the closed-form (1+beta) law and energy equality",
-         "Generated cepstra x beta: spectral relation constant within 0.005 neper, energy within 1 %, bitwise no-op for beta = 0 and length 2.",
+         "Generated cepstra x beta: spectral relation constant within 0.005 neper, energy within 1 %, bitwise no-op for beta = 0 and length 2; the same after generated frame histories; the first pulse after unvoiced frames (isolated by differencing a 20-Hz and a 40-Hz rendering) equals the stationary response.",
          "Measured in frame 2 (stationary coefficients); cases outside the Pade-accurate range are rejected (counted).", "4/C14"),
  "C15": ("exploration", "PBT, metamorphic relation against h = 0 on hook trajectories + direct check of the public clamp",
          "Generated engines/utterances/conditions x h in [-24,24]: durations, voicing, spectrum and low-pass trajectories bitwise invariant; voiced log-F0 shifted by h ln2/12 within 1e-8 unless a voiced state reaches the clamp.",
